@@ -2,7 +2,8 @@
    Only statements closed by `exact`, with Print Assumptions.  Model: model/Store.v (heap), model/Iso.v (writers). *)
 From Coq Require Import List ZArith Bool.
 From PV Require Import lib.Sx lib.Result model.Store model.Iso
-     proofs.StoreFacts proofs.DeepcopyFacts proofs.IsoFacts proofs.IsoExamples.
+     spec.SpecIso proofs.StoreFacts proofs.DeepcopyFacts proofs.IsoFacts proofs.RegionFacts proofs.OracleFacts
+     proofs.IsoExamples.
 Import ListNotations.
 
 (* deepcopy: everything that existed stays as it is, the copy lives in fresh locations and points only into itself
@@ -20,6 +21,17 @@ Theorem C09_deepcopy_snapshot_eq : forall st fuel v st' v',
   forall n, snap n st' v' = snap n st v.
 Proof. exact deepcopy_snapshot_eq. Qed.
 Print Assumptions C09_deepcopy_snapshot_eq.
+
+(* deepcopy preserves SHARING exactly: the memo is an injective function from the original locations to fresh ones and
+   every copied object is its original with all pointers mapped (graph isomorphism): nothing is copied twice, no two
+   objects are merged *)
+Theorem C09_deepcopy_isomorphism : forall st fuel v st' v',
+  wf st -> below (length st) v -> deepcopy fuel st v = Some (st', v') ->
+  exists m, minj m /\ vrel m v v' /\
+            forall a b, mlookup a m = Some b ->
+                        (a < length st)%nat /\ (length st <= b < length st')%nat /\ copied st st' m a b.
+Proof. exact deepcopy_isomorphism. Qed.
+Print Assumptions C09_deepcopy_isomorphism.
 
 (* the footprint of write(): for all 8 writer models, all options, any instance state, any store, any argument,
    before and after the repairs, on normal and on error exits, every assignment lands in what the call allocated *)
@@ -46,7 +58,8 @@ Theorem C09_history_preserves_inputs : forall c ops w,
 Proof. exact writes_preserve_snapshots. Qed.
 Print Assumptions C09_history_preserves_inputs.
 
-(* one write step inside ANY history (reads, edits, writes before it) keeps every set's snapshot *)
+(* one write step from any well-formed world keeps every set's snapshot (that every world reached by ANY history is
+   well formed is C09_history_wf_world below) *)
 Theorem C09_step_write_preserves : forall c w wid k o si,
   wf_world w ->
   let w' := fst (step c w (OWrite wid k o si)) in
@@ -54,6 +67,20 @@ Theorem C09_step_write_preserves : forall c w wid k o si,
   (forall fuel v, below (length (w_st w)) v -> snap fuel (w_st w') v = snap fuel (w_st w) v).
 Proof. exact step_write_preserves. Qed.
 Print Assumptions C09_step_write_preserves.
+
+(* every operation keeps the world well formed, so the write theorems apply after ANY history of reads (fresh / reused
+   readers), API builds, edits and writes *)
+Theorem C09_history_wf_world : forall c ops w, repaired c -> wf_world w -> wf_world (run_world c w ops).
+Proof. exact history_wf_world. Qed.
+Print Assumptions C09_history_wf_world.
+
+Theorem C09_write_after_any_history_preserves : forall c ops wid k o si,
+  repaired c ->
+  let w := run_world c world0 ops in
+  let w' := fst (step c w (OWrite wid k o si)) in
+  w_sets w' = w_sets w /\ forall fuel, map (snap fuel (w_st w')) (w_sets w) = map (snap fuel (w_st w)) (w_sets w).
+Proof. exact write_after_any_history_preserves. Qed.
+Print Assumptions C09_write_after_any_history_preserves.
 
 (* with open_span reset at entry, store effect / result / footprint do not depend on the writer object's state:
    the same object again = a fresh object = an object that wrote other sets or raised *)
@@ -92,6 +119,16 @@ Theorem C09_write_history_independent : forall c ops w k o wi si s,
 Proof. exact write_history_independent. Qed.
 Print Assumptions C09_write_history_independent.
 
+(* THE MODEL MEETS THE ORACLE: the extracted property oracle (spec/SpecIso.v check_hist, here with snapshots instead of
+   their digests) evaluated on the model's own observations of ANY history of reads, builds, edits and writes reports
+   nothing - no write changes any set (clause 1), equal (writer, options, snapshot) give equal results (clause 2).
+   With the per-run correspondence (implementation observations = model observations) this composes to the property. *)
+Theorem C09_model_meets_oracle : forall c ops,
+  repaired c -> fix15 c = true -> no_fuel_exhaustion c world0 ops ->
+  check_hist tree tree_eqb TCut true false 0 [] [] (model_obs c world0 ops) = [].
+Proof. exact model_meets_ok_c09. Qed.
+Print Assumptions C09_model_meets_oracle.
+
 (* before the open_span repair the statement is false of the faithful model: witness = the replayed history *)
 Theorem C09_open_span_leak_refuted :
   let r := run (mkCfg true true false) world0 (hist15 W_DFXP) in
@@ -99,7 +136,13 @@ Theorem C09_open_span_leak_refuted :
 Proof. exact open_span_leak_refuted. Qed.
 Print Assumptions C09_open_span_leak_refuted.
 
-(* and the footprint theorem is false of a writer model that assigns without copying first *)
+Theorem C09_open_span_leak_refuted_sami :
+  let r := run (mkCfg true true false) world0 (hist15 W_SAMI) in tokens_of r 4 <> tokens_of r 5.
+Proof. exact open_span_leak_refuted_sami. Qed.
+Print Assumptions C09_open_span_leak_refuted_sami.
+
+(* the assignments of the DFXP writer model applied in place (no copy) change the input's snapshot: what the footprint
+   theorem rules out is observable by `snap` *)
 Theorem C09_write_without_copy_refuted :
   let w1 := run_world fixed world0 [OBuild positioned] in
   let s := nth 0 (w_sets w1) VNone in
@@ -133,3 +176,24 @@ Proof. exact open_span_reset_example. Qed.
 
 Example C09_world0_wf : wf_world world0.
 Proof. exact wf_world0. Qed.
+
+(* non-vacuity of the history theorems: a well-formed world with three sets, two of which SHARE objects; a history of
+   writes on it; the hypotheses of C09_model_meets_oracle on a history that writes; the oracle does report the leak *)
+Example C09_example_shared_world : wf_world shared_world /\ length (w_sets shared_world) = 3%nat /\
+  shares FUEL (w_st shared_world) (nth 0 (w_sets shared_world) VNone) (nth 1 (w_sets shared_world) VNone) = true.
+Proof. exact shared_world_wf. Qed.
+
+Example C09_example_history :
+  forallb is_write some_writes = true /\
+  map (snap FUEL (w_st (run_world fixed shared_world some_writes))) (w_sets (run_world fixed shared_world some_writes))
+  = [doc_a; doc_b; positioned] /\
+  (length (w_st shared_world) < length (w_st (run_world fixed shared_world some_writes)))%nat.
+Proof. exact history_theorem_instance. Qed.
+
+Example C09_example_no_fuel_exhaustion : no_fuel_exhaustion fixed world0 small_history.
+Proof. exact small_history_no_fuel_exhaustion. Qed.
+
+Example C09_example_oracle_reports_leak :
+  check_hist tree tree_eqb TCut true false 0 [] [] (model_obs (mkCfg true true false) world0 (hist15 W_DFXP))
+  = [(4, 2); (5, 2)]%Z.
+Proof. exact oracle_reports_open_span_leak. Qed.
